@@ -1,6 +1,7 @@
 package main
 
 import (
+	"os"
 	"fmt"
 	"math/rand"
 	"slices"
@@ -53,15 +54,17 @@ func (g *lookupGen) tla() string {
 	return b.String()
 }
 
-var lookupFixes = []string{"F1", "F2", "F3", "F4", "F5", "F6", "F16"}
+var lookupFixes = []string{"F1", "F2", "F3", "F4", "F5", "F6", "F16", "T1", "T2", "T3", "T4", "T5", "T6", "S1", "S2", "S3", "S4", "P1"}
 
 // which mode of the model (path tables, hostname tables) reaches the shape a repair is about
-var lookupFixMode = map[string]string{"F1": "both", "F2": "host", "F3": "path", "F4": "path", "F5": "path", "F6": "path", "F16": "path"}
+var lookupFixMode = map[string]string{"F1": "both", "F2": "host", "F3": "path", "F4": "path", "F5": "path", "F6": "path", "F16": "path",
+	"T1": "path", "T2": "path", "T3": "path", "T4": "path", "T5": "path", "T6": "host", "S1": "path", "S2": "path", "S3": "path", "S4": "host", "P1": "path"}
 
 // the shapes behind the repaired defects and the seeded changes, over the alphabet {a, b}
 var lookupCorePool = []string{
 	"/a", "/a/", "/{x}", "/{x}/", "/a/{y}", "/*{w}", "/a/*{w}", "/*{w}/b", "/ab", "/a{x}", "/{x}/b", "/b", "/b/",
 	"/{x}/{y}", "/a/b", "/*{w}/{y}", "/ab/", "/abb", "/b{y}/*{y}/", "/a/a/a*{x}/",
+	"/{x}/b/", "/{x}/bb", "/ab/b/", "/a/b/",
 }
 
 // witnesses of F1 and F5 need four routes, or routes outside the core pool
@@ -216,8 +219,17 @@ func lookupNegativeRuns(r *Run, g, gh *lookupGen) []string {
 				}
 			}
 			res := r.runTLC(tlcOpts{Module: "MC_Lookup", Tag: "-" + mode + "-without-" + off, Gen: map[string]string{"Gen_Lookup.tla": h.tla()}, Timeout: 30 * time.Minute})
-			if strings.Contains(res.Output, "walk and reference disagree") {
+			if i := strings.Index(res.Output, "walk and reference disagree"); i >= 0 {
 				r.addCov("lookup_model_defects_reproduced", 1)
+				w := res.Output[i:]
+				if len(w) > 700 {
+					w = w[:700]
+				}
+				w = strings.Join(strings.Fields(w), " ")
+				r.sample(map[string]any{"rule_switched_off": off, "mode": mode, "witness": w})
+				if os.Getenv("FOXCHECK_SHOW_WITNESS") != "" {
+					outf("WITNESS %s (%s): %s\n", off, mode, w)
+				}
 			} else {
 				missed = append(missed, off+" ("+mode+" tables)")
 			}
